@@ -78,15 +78,27 @@ func (e *c20env) ReadPacketData() ([]byte, *gopacket.CaptureInfo, error) {
 		<-e.release
 		return nil, nil, errors.New("read: use of closed file")
 	}
-	i := e.pos
-	e.pos++
-	e.reads++
-	sym := e.script[i]
-	vs.Observe("read", "%c%d", sym, i)
-	if sym == 'F' || sym == 'P' {
-		return []byte{sym, byte(i)}, &gopacket.CaptureInfo{}, nil
+	// the read is an environment call, hence a scheduling point of its own: the cancellation event
+	// can land between any two reads even where the code under test has no synchronisation
+	// operation between them
+	var data []byte
+	var err error
+	vs.Visible("read", func() {
+		i := e.pos
+		e.pos++
+		e.reads++
+		sym := e.script[i]
+		vs.Observe("read", "%c%d", sym, i)
+		if sym == 'F' || sym == 'P' {
+			data = []byte{sym, byte(i)}
+			return
+		}
+		err = c20err(sym, i)
+	})
+	if err != nil {
+		return nil, nil, err
 	}
-	return nil, nil, c20err(sym, i)
+	return data, &gopacket.CaptureInfo{}, nil
 }
 
 func (e *c20env) ProcessPacketData(data []byte, _ *gopacket.CaptureInfo) error {
